@@ -140,7 +140,16 @@ func astInputValue(name, desc string, t *ast.Type, def *ast.Value, dl ast.Direct
 
 // fromAST builds the reference description. Deprecated elements are always included here;
 // the comparison filters them according to the variant.
-func fromAST(s *ast.Schema) *MSchema {
+func fromAST(s *ast.Schema) *MSchema { return fromASTOpt(s, false) }
+
+// the types and directives of gqlparser's prelude
+var preludeTypes = map[string]bool{"Int": true, "Float": true, "String": true, "Boolean": true, "ID": true}
+var preludeDirectives = map[string]bool{"defer": true, "include": true, "skip": true, "deprecated": true, "specifiedBy": true, "oneOf": true}
+
+// fromASTOpt: with preludeOnly, only the prelude's own definitions count as built-in (presence
+// check); everything a plugin injects (federation's _Any, _Entity, _Service, Query._service,
+// Query._entities, its directives) is then compared exactly like a user-defined element.
+func fromASTOpt(s *ast.Schema, preludeOnly bool) *MSchema {
 	m := &MSchema{Types: map[string]*MType{}, Directives: map[string]*MDirective{}, Desc: descPtr(s.Description)}
 	if s.Query != nil {
 		m.Query = strp(s.Query.Name)
@@ -153,6 +162,9 @@ func fromAST(s *ast.Schema) *MSchema {
 	}
 	for name, def := range s.Types {
 		t := &MType{Kind: string(def.Kind), Name: name, Desc: descPtr(def.Description), BuiltIn: def.BuiltIn}
+		if preludeOnly {
+			t.BuiltIn = preludeTypes[name] || strings.HasPrefix(name, "__")
+		}
 		switch def.Kind {
 		case ast.Object, ast.Interface:
 			t.Fields = []MField{}
@@ -228,6 +240,9 @@ func fromAST(s *ast.Schema) *MSchema {
 		}
 		if d.Position != nil && d.Position.Src != nil && d.Position.Src.BuiltIn {
 			md.BuiltIn = true
+		}
+		if preludeOnly {
+			md.BuiltIn = preludeDirectives[name]
 		}
 		m.Directives[name] = md
 	}
